@@ -91,6 +91,18 @@ CONTROLS = [
     ('w4-text-public', 'W4', 'syn', 'field-visible:text', [(API, 'pub struct SyntaxTree {\n    node: AnyNode,\n    text: PreprocessedText,', 'pub struct SyntaxTree {\n    node: AnyNode,\n    pub text: PreprocessedText,', 1)]),
     ('w5-end-without-len', 'W5', 'syn', 'get_str:slice', [(API, '                end = x.offset + x.len;\n            }\n        }\n        if let Some(beg) = beg {\n            let ret = unsafe { self.text.text().get_unchecked(beg..end) };\n            Some(ret)\n        } else {\n            None\n        }\n    }\n\n    /// Get `&str` without',
                                                         '                end = x.offset;\n            }\n        }\n        if let Some(beg) = beg {\n            let ret = unsafe { self.text.text().get_unchecked(beg..end) };\n            Some(ret)\n        } else {\n            None\n        }\n    }\n\n    /// Get `&str` without', 1)]),
+    ('g14-predicate-char-class', 'G14', 'syn', 'unknown-char-class', [(PARSER + 'utils.rs',
+        '            map(multispace1, |x: Span| {\n                WhiteSpace::Newline(Box::new(into_locate(x)))', '            map(take_while1(|c: char| c.is_whitespace()), |x: Span| {\n                WhiteSpace::Newline(Box::new(into_locate(x)))', 1)]),
+    ('g11-reset-in-one-sibling', 'G11', 'syn', 'sibling-effects-differ', [(PARSER + 'source_text/system_verilog_source_text.rs',
+        'pub(crate) fn source_text(s: Span) -> IResult<Span, SourceText> {\n', 'pub(crate) fn source_text(s: Span) -> IResult<Span, SourceText> {\n    clear_version();\n', 1)]),
+    ('x13-wrong-name-in-error', 'X13', 'syn', 'DefineNotFound-payload', [(PPF, 'Err(Error::DefineNotFound(id))', 'Err(Error::DefineNotFound(args_str))', 1)]),
+    ('x14-define-records-nothing', 'X14', 'syn', 'define-record', [(PPF, 'defines.insert(id, Some(define));', 'defines.insert(id, None);', 1)]),
+    ('w6-trimmed-file-contents', 'W6', 'syn', 'text-not-buffer', [(PPF, '        preprocess_str(\n            &s,\n            path,', '        preprocess_str(\n            s.trim_end(),\n            path,', 1)]),
+    ('x4c-empty-separator', 'X4', 'syn', 'strip-separator', [(PPF, '                    } else {\n                        " "\n                    };', '                    } else {\n                        ""\n                    };', 1)]),
+    ('x7-skip-list-cleared', 'X7', 'syn', 'skip-list-shrinks', [(PPF, '            NodeEvent::Leave(RefNode::ResetallCompilerDirective(_)) => {\n                skip_whitespace = false;', '            NodeEvent::Leave(RefNode::ResetallCompilerDirective(_)) => {\n                skip_nodes.nodes.clear();\n                skip_whitespace = false;', 1)]),
+    ('x3-origin-rebound', 'X3', 'syn', 'origin-source', [(PPF, '                    ret.push(&text, origin);\n                    defines = new_defines;', '                    let origin = origin.map(|(_, r)| (PathBuf::from(path.as_ref()), r));\n                    ret.push(&text, origin);\n                    defines = new_defines;', 1)]),
+    ('x8-counter-in-place', 'X8', 'syn', 'counter-modified', [(PPF, '                let (include, new_defines) =\n                    preprocess_inner(', '                let include_depth = include_depth + 0;\n                let (include, new_defines) =\n                    preprocess_inner(', 1)]),
+    ('k2-conditional-push', 'K2', 'syn', 'begin_keywords', [(PARSER + 'utils.rs', '        "directive" => current_version.borrow_mut().push(Version::Directive),', '        "directive" => if !in_directive() { current_version.borrow_mut().push(Version::Directive) },', 1)]),
     # ---- MIR controls (each needs one cargo +nightly check of the scratch copy)
     ('s1-version-stack-not-reset', 'S1', 'mir', 'not-reset:CURRENT_VERSION', [(PARSER + 'lib.rs', '    clear_directive();\n    clear_version();\n}', '    clear_directive();\n}', 1)]),
     ('s2-grammar-function-exported', 'S2', 'mir', 'source_text', [(PARSER + 'source_text/system_verilog_source_text.rs', 'pub(crate) fn source_text(s: Span)', 'pub fn source_text(s: Span)', 1)]),
